@@ -402,9 +402,53 @@ def main():
     def exe_for(config):
         return build_harness(pid, prop, config)
 
+    def shrink_crash(exe, casefile, mode):
+        """Out-of-process minimisation of a case that kills the harness (sanitizer report / abort): the in-process
+        shrinker cannot survive those.  Block deletion over the hex buffer, keeping candidates that still crash."""
+        try:
+            txt = open(casefile, "rb").read().decode("latin1")
+        except OSError:
+            return
+        m = re.search(r"^hex: ([0-9a-f]*)$", txt, re.M)
+        if not m:
+            return  # raw libFuzzer artifact: leave as is
+        buf = bytes.fromhex(m.group(1))
+        head = txt[:m.start()]
+        t_end = time.time() + 25
+        tmp = casefile + ".min"
+
+        def crashes(b):
+            with open(tmp, "w") as f:
+                f.write(head + "hex: " + b.hex() + "\n")
+            st, _ = replay_case(exe, prop, tmp, kf_all, mode, timeout=60)
+            return st == "crash"
+        runs = 0
+        bs = max(1, len(buf) // 2)
+        while bs >= 1 and runs < 160 and time.time() < t_end:
+            i = 1  # keep the size byte
+            changed = False
+            while i < len(buf) and runs < 160 and time.time() < t_end:
+                cand = buf[:i] + buf[i + bs:]
+                runs += 1
+                if len(cand) < len(buf) and crashes(cand):
+                    buf = cand
+                    changed = True
+                else:
+                    i += bs
+            if not changed or bs == 1:
+                bs //= 2
+        with open(casefile, "w") as f:
+            f.write(head + "hex: " + buf.hex() + "\n")
+        try:
+            os.remove(tmp)
+        except OSError:
+            pass
+
     def confirm_and_record(casefile, mode, config, what, stderr_tail=""):
         """Replay a failing case in a fresh process before reporting it."""
         exe = exe_for(config)
+        if what.startswith("sanitizer report") and pid != "C18":
+            shrink_crash(exe, casefile, mode)
         reps = prop.get("confirm_runs", 1)
         ok = True
         last = ""
